@@ -185,6 +185,7 @@ func genScenarioC03(t *Tape, thorough bool) *Scenario {
 	h := genHistoryFor(t, hs, &o)
 	cs := t.S("cfg")
 	sc := &Scenario{Hist: h, Start: pickStart(cs, h, true), ServerID: replicaIDOf(t)}
+	sc.Scribble = cs.Chance(1, 6) // a consumer that overwrites what it received, labels included
 	if cs.Chance(1, 3) {
 		// replica crash at an arbitrary point of the stream (the Streamer is abandoned),
 		// then a new Streamer starts from the last label the handler recorded
@@ -461,6 +462,10 @@ func fillFault(s *Stream, h *History, kind stopKind, at int, p *AttemptPlan) {
 		p.Stream = StreamPlan{Kind: kind, AtPacket: at, ThenFIN: s.Chance(1, 2)}
 	case stopInvalidEvent:
 		p.Stream = StreamPlan{Kind: kind, AtPacket: at, Invalid: invalidPayload(s, h)}
+		if s.Chance(1, 6) {
+			// garbage from the first byte on (a proxy writing text into the stream ...)
+			p.Stream.FirstByte = byte(1 + s.N(0xfd))
+		}
 		secondGarbage(s, &p.Stream)
 	case stopUnsupportedEvent:
 		p.Stream = StreamPlan{Kind: kind, AtPacket: at, BadType: []byte{evRowsQuery, evIntVar, evRand}[s.N(3)]}
@@ -530,6 +535,7 @@ func packetCount(h *History, start Pos) int {
 }
 
 type faultEmphasis struct {
+	EnvPanic     bool // C05: some failing callbacks panic instead of returning an error
 	StartHigh    bool // C05: start offsets with bits above 2^32 set
 	GateAccepted bool // C17: some injected packets are bare headers that pass the validity gate
 	ConnPhase    int  // 1/n chance that a fault attempt is a connection-phase fault
@@ -571,6 +577,15 @@ func genFaultScenario(t *Tape, o *GenOpts, em faultEmphasis) *Scenario {
 			if npk > 256 && fs.Chance(1, 3) {
 				at = 255 + 256*fs.N(npk/256) - fs.N(2) // around the packet whose sequence id wraps to 0
 			}
+			if npk > 1000 {
+				// the N-th packet of the dump for the largest round N the history reaches
+				for _, n := range []int{10000, 4096, 1024, 1000} {
+					if npk >= n {
+						at = n - 1 - fs.N(2)*fs.N(2)
+						break
+					}
+				}
+			}
 			switch k {
 			case stopHandlerErr:
 				at = fs.N(len(exp) + 1)
@@ -581,6 +596,12 @@ func genFaultScenario(t *Tape, o *GenOpts, em faultEmphasis) *Scenario {
 				k = stopTimeout
 			}
 			fillFault(fs, h, k, at, &p)
+			if npk > 1000 && k == stopInvalidEvent && fs.Chance(1, 2) {
+				p.Stream.Invalid = fs.Bytes(fs.N(19)) // header-less, at a round ordinal
+			}
+			if em.EnvPanic && (k == stopHandlerErr || k == stopMapperErr) && fs.Chance(1, 5) {
+				p.EnvPanic = true
+			}
 			if em.GateAccepted && k == stopInvalidEvent && fs.Chance(1, 8) {
 				// a header and nothing else (19 bytes), or a header and 1..3 bytes: the
 				// length field is right, so the gate accepts the buffer; with checksums on
@@ -590,7 +611,7 @@ func genFaultScenario(t *Tape, o *GenOpts, em faultEmphasis) *Scenario {
 				b := fs.Bytes(n)
 				b[4] = []byte{16, 16, 16, 3, 27, 35, 36, 40, 99, 200}[fs.N(10)] // XID, STOP, HEARTBEAT, unknown types
 				b[9], b[10], b[11], b[12] = byte(n), 0, 0, 0
-				p.Stream.Invalid, p.Stream.GateAccepted, p.Stream.Second = b, true, false
+				p.Stream.Invalid, p.Stream.GateAccepted, p.Stream.Second, p.Stream.FirstByte = b, true, false, 0
 				if p.Stream.AtPacket < 2 {
 					p.Stream.AtPacket = 2
 				}
